@@ -17,6 +17,8 @@ The oracle below is evaluated on the implementation's transcript only (python, i
                  epoch's polynomial, or whose index is not a member index of its group (from plog: natural traffic, and inject)
   R.refused      a valid partial of another current member for head+1 is refused
   R.count        the head moves on an injected partial that must not count
+  R.live-stale-index  cause class of R.live: the set is stuck on a round for which its members cache an old-share partial (let in while they
+                    were still on the old vault) under an index of the new group
   R.leaver-running  a node that left the group and was told so still runs its beacon handler at the transition
 
 Every rule carries a cause class so that a known finding suppresses only its own input class.
@@ -133,6 +135,30 @@ def s_leaver_core(scheme, backend):
     return mk("leaver-core", 4, 3, ops, scheme=scheme, backend=backend)
 
 
+def s_stale_partial(scheme, backend):
+    """{L0,1,2} thr 2 -> {1:0, 2:1} thr 2: node 1 gets the index the leaver had (indices are positions in the sorted member list).
+    The leaver is never told and keeps signing with its old share (what core's leaveNetwork leaves behind). Period transition-1:
+    only the leaver hears enough partials (1<->2, 0->1, 0->2 cut): it stores transition-1, the remainers do not. Period of the
+    transition round: only 0->1 and 0->2 are open: the leaver's old-share partial for the transition round reaches the remainers
+    while they are still on the old vault (accepted, rightly). Then everything heals: the whole new group is up and connected."""
+    ops = steps(2 * K) + [f"reshare 2 {spec([(1, 0), (2, 1)])} 3", "announce 1", "announce 2"] + steps(K)
+    ops += ["link 1 2 cut", "link 2 1 cut", "link 0 1 cut", "link 0 2 cut"] + steps(K)
+    ops += ["link 1 0 cut", "link 2 0 cut", "link 0 1 ok", "link 0 2 ok"] + steps(K) + ["plog"]
+    ops += ["link 1 0 ok", "link 2 0 ok", "link 1 2 ok", "link 2 1 ok"] + steps(6 * K) + ["plog"]
+    return mk("stale-partial", 3, 2, ops, scheme=scheme, backend=backend, family="stale-partial")
+
+
+def s_stale_inject(scheme, backend):
+    """the same resharing; the leaver stores transition-1 (it alone hears enough) and is then stopped. While the remainers are
+    still one round behind, an ex-member's partial for the transition round — signed with the OLD share of index 0, on top of
+    the real round transition-1 — is handed to each of them (round = clock + 1 is accepted). Then the links heal."""
+    ops = steps(2 * K) + [f"reshare 2 {spec([(1, 0), (2, 1)])} 3", "announce 1", "announce 2"] + steps(K)
+    ops += ["link 1 2 cut", "link 2 1 cut", "link 0 1 cut", "link 0 2 cut"] + steps(K) + ["stop 0"]
+    ops += ["inject 1 0 0 5", "inject 2 0 0 5", "plog"]
+    ops += ["link 1 2 ok", "link 2 1 ok", "link 0 1 ok", "link 0 2 ok"] + steps(6 * K) + ["plog"]
+    return mk("stale-inject", 3, 2, ops, scheme=scheme, backend=backend, family="stale-partial")
+
+
 def s_gap_hole(scheme, backend):
     """first group {0:0,1:2,2:3} thr 3; node 2 stops; a valid partial for the MISSING index 1 (a share of the same polynomial)
     is offered to 0 and 1: with their own two partials it would make three"""
@@ -197,13 +223,14 @@ FAMILIES = {
     "late-one": (s_late_one, ("C07",)), "late-needed": (s_late_needed, ("C07", "C05")), "late-all": (s_late_all, ("C07", "C03")),
     "late-leaver": (s_late_leaver, ("C03", "C07")), "leaver-sends": (s_leaver_sends, ("C03", "C07")), "gap-hole": (s_gap_hole, ("C03",)),
     "leaver-core": (s_leaver_core, ("C07",)),
+    "stale-partial": (s_stale_partial, ("C07", "C05")), "stale-inject": (s_stale_inject, ("C07",)),
 }
 
 QUICK = {
     "C05": [("few-remainers", CH, "mem"), ("gap-init", UN, "mem"), ("failput:err", CH, "bolt"), ("failput:cancel", CH, "bolt"), ("failput:err", UN, "mem"),
-            ("failput-spare:err", CH, "mem")],
+            ("failput-spare:err", CH, "mem"), ("stale-partial", CH, "mem")],
     "C07": [("thr-raise", UN, "mem"), ("thr-lower", CH, "bolt"), ("gap-new", UN, "mem"), ("joiner-needed", CH, "mem"), ("late-one", CH, "mem"),
-            ("late-needed", UN, "mem"), ("late-all", CH, "mem"), ("leaver-core", UN, "mem")],
+            ("late-needed", UN, "mem"), ("late-all", CH, "mem"), ("leaver-core", UN, "mem"), ("stale-partial", UN, "mem"), ("stale-inject", CH, "mem")],
     "C03": [("gap-hole", CH, "mem"), ("late-leaver", CH, "mem"), ("leaver-sends", UN, "mem")],
 }
 
@@ -395,6 +422,8 @@ def oracle(case, res, dump):
     told = {}        # (node, epoch) -> {"late": bool}   remain/join announcements that were accepted
     left = {}        # node -> (epoch it leaves at, told through core?)
     armed = set()    # nodes with a store failure waiting to happen
+    stale = {}       # node -> {index: round}: an old-share partial for a round of the NEW epoch that the node let in while it was
+                     # still on the old vault (rightly), under an index that now belongs to a member of the new group
     stable_since, heal_deadline = {}, {}
     step_no = 0
 
@@ -419,6 +448,11 @@ def oracle(case, res, dump):
         cur = res[k]
         f = op.split()
         if f[0] == "plog":
+            for e in cur["plog"]:
+                g1 = epochs[-1]
+                if len(epochs) > 1 and e["why"] == "ok" and e["round"] >= g1["tr"] and g1["id"] not in e["valid"] and e["to"] in g1["members"] \
+                        and e["idx"] in g1["members"].values() and e["ha"] < e["round"]:
+                    stale.setdefault(e["to"], {})[e["idx"]] = e["round"]
             for e in cur["plog"]:
                 to = e["to"]
                 own = None
@@ -458,6 +492,10 @@ def oracle(case, res, dump):
             armed.add(int(f[1]))
         if f[0] == "inject":
             to, ep, ix = int(f[1]), int(f[2]), int(f[3])
+            g1 = epochs[-1]
+            if len(epochs) > 1 and cur.get("inj") == "ok" and cur["round"] >= g1["tr"] and ep != g1["id"] and to in g1["members"] \
+                    and ix in g1["members"].values() and cur["ha"] < cur["round"]:
+                stale.setdefault(to, {})[ix] = cur["round"]
             want = expected_epoch(to, cur["hb"])
             if want is not None:
                 own = want["members"].get(to)
@@ -543,12 +581,16 @@ def oracle(case, res, dump):
                     end_of_period = step_no % K == 0
                     for i in c:
                         if cur["h"][i] < cur["r"] - 1 or (end_of_period and cur["h"][i] < cur["r"]):
-                            stale = [j for j in c if cur.get("ep") and cur["ep"][j] is not None and cur["ep"][j] != g["id"]
-                                     and told.get((j, g["id"]), {}).get("late") and cur["h"][j] == g["tr"] - 1]
-                            rule = "R.live-late-needed" if stale else "R.live"
+                            late_n = [j for j in c if cur.get("ep") and cur["ep"][j] is not None and cur["ep"][j] != g["id"]
+                                      and told.get((j, g["id"]), {}).get("late") and cur["h"][j] == g["tr"] - 1]
+                            # the round the set is stuck on is one for which members hold a stale old-share partial on a member index
+                            blocked = {j: sorted(x for x, rd in stale.get(j, {}).items() if rd == cur["h"][j] + 1) for j in c}
+                            blocked = {j: v for j, v in blocked.items() if v}
+                            rule = "R.live-late-needed" if late_n else ("R.live-stale-index" if blocked else "R.live")
                             flag(rule, f"op {k} ({op}): node {i} of the healthy set {sorted(c)} (group of epoch {g['id']}: members {mem}, threshold {g['thr']}) has head "
                                        f"{cur['h'][i]} at clock round {cur['r']}, {nsteps} sub-steps after the set became healthy (bound {need})"
-                                       + (f"; node(s) {stale} were told late and never switched" if stale else ""))
+                                       + (f"; node(s) {late_n} were told late and never switched" if late_n else "")
+                                       + (f"; node -> member indices on which it caches an old-share partial for the round it is stuck on: {blocked}" if blocked and not late_n else ""))
         prev = cur
     return out
 
@@ -675,7 +717,7 @@ def is_late_class(rule):
 
 def no_retry(rule):
     """classes that do not depend on scheduling (the known findings): nothing to retry or to confirm alone"""
-    return is_late_class(rule)
+    return is_late_class(rule) or rule.endswith("-stale-index")
 
 
 def run_with_retries(case, maxwait, quiet, model, retries=2):
